@@ -10,6 +10,7 @@ require (
 require (
 	github.com/256dpi/mercury v0.2.0 // indirect
 	github.com/gorilla/websocket v1.4.1 // indirect
+	github.com/jpillora/backoff v0.0.0-20170918002102-8eab2debe79d // indirect
 	gopkg.in/tomb.v2 v2.0.0-20161208151619-d5d1b5820637 // indirect
 )
 
